@@ -85,6 +85,11 @@ def run(tier, seed):
     cases, sizes = make_cases(table, tier, rng)
     obs, crashes = vlib.run_cases(binary, "TestHandshakeCases", cases, "c01")
     by = {c["name"]: c for c in cases}
+    for name in vlib.hung_cases(obs):
+        rep.violation("c01:hang", "case %s did not finish within %ss: a call never returned (%s)" % (name, obs[name].get("limit_s"), json.dumps({k: v for k, v in by[name].items() if k != "name"})[:300]),
+                      {"case": by[name], "dump": obs[name].get("dump", "")[:8000]})
+        del obs[name]
+        cases = [c for c in cases if c["name"] != name]
     for name, out in crashes.items():
         rep.violation("c01:crash", "the host process died on handshake case %s" % name, {"case": by[name], "output": out})
     missing = [c["name"] for c in cases if c["name"] not in obs and c["name"] not in crashes]
